@@ -1010,6 +1010,56 @@ def r13_every_pass_starts_from_the_default_letter_table(ctx, rule="C13.R13"):
     ctx.require(rule, 2)
 
 
+def r14_a_variable_cannot_take_the_name_of_a_function(ctx, rule="C13.R14"):
+    """A DIM (or REDIM) may not declare a variable under the name of a FUNCTION: inside the function the bare name
+    is its result, everywhere else it is a call - a variable of that name takes both away.  (A *parameter* of the
+    function's own type is the one exception QBasic has.)  Among the checks that the declaration rules run
+    against the table of functions, one is strict: wherever the name is found there, every path ends in an
+    error.  Folding the strict check into the lenient one (`allowed when the types agree`) lets
+    `DIM SHARED Twice` stand next to `FUNCTION Twice`."""
+    prog = ctx.prog
+    cands = []
+    for f in sorted(prog.fns.values(), key=lambda f: f.id):
+        if f.crate != "rusty_linter" or f.body is None or "dim_rules" not in f.id:
+            continue
+        body = f.body
+        pv = mir.Prov(body)
+        for b, t in body.calls():
+            nm = mir.callee_path(t).split("::")[-1]
+            found_t = other_t = None
+            if nm == "contains_key" and t["args"] and mir.origin_mentions(pv.of_operand(t["args"][0]), lambda z: z[0] == "field" and z[2] == "functions"):
+                sw = body.term(t["t"])
+                if sw["k"] == "switch":
+                    f0 = [tg for v, tg in sw["ts"] if v == 0]
+                    found_t, other_t = sw["else"], (f0[0] if f0 else None)
+            elif nm == "function_qualifier":
+                for sw2 in mir.enum_switches(prog, body):
+                    if sw2.adt.endswith("option::Option") and body.dominates(b, sw2.bb):
+                        found_t, other_t = sw2.arms.get("Some", sw2.otherwise), sw2.arms.get("None", sw2.otherwise)
+                        break
+            if found_t is None:
+                continue
+            # every exit reachable on the `found` side builds an Err
+            reach = body.reachable(found_t, avoid={other_t} if other_t is not None else ())
+            ok_built = any(st["k"] == "assign" and st["r"].get("k") == "agg" and st["r"].get("a") == "adt"
+                           and st["r"].get("adt") == "core::result::Result" and st["r"].get("variant") == "Ok"
+                           for x in reach if not body.is_cleanup(x) for st in body.blocks[x]["s"])
+            err_built = any(st["k"] == "assign" and st["r"].get("k") == "agg" and st["r"].get("a") == "adt"
+                            and st["r"].get("adt") == "core::result::Result" and st["r"].get("variant") == "Err"
+                            for x in reach if not body.is_cleanup(x) for st in body.blocks[x]["s"])
+            cands.append((f, err_built and not ok_built))
+    if not cands:
+        raise CheckError("%s: no declaration rule consults the table of functions" % rule)
+    strict = [f for f, s_ in cands if s_]
+    ctx.decide(bool(strict), rule, rule + ":strict-check-exists", cands[0][0].loc,
+               "%d checks against the function table, strict: %s" % (len(cands), sorted({f.path.split('::')[-1] + ' of ' + (f.impl or {}).get('self_ty', '?').split('::')[-1] for f in strict})),
+               "of the %d checks the declaration rules run against the table of functions none rejects every name found "
+               "there: a DIM / DIM SHARED / REDIM of a name that is also a FUNCTION of the same type is accepted, the "
+               "variable then takes the name (`Twice(4)` indexes an array, assigning to Twice inside the function writes "
+               "the variable)" % len(cands))
+    ctx.require(rule, 1)
+
+
 def run(ctx):
     common.install(ctx)
     from . import c09
@@ -1027,3 +1077,4 @@ def run(ctx):
     r11_argument_position_resolves_like_any_value(ctx)
     r12_every_definition_looks_at_the_shared_names(ctx)
     r13_every_pass_starts_from_the_default_letter_table(ctx)
+    r14_a_variable_cannot_take_the_name_of_a_function(ctx)
